@@ -11,9 +11,11 @@ const MUTATIONS: &[&str] = &[
     "mid_slash", "pct_slash", "pct_slash_lc", "pct_letter", "pct_dot", "query", "query_path", "fragment",
     "absolute", "trunc_svc", "ext_svc", "trunc_m", "ext_m", "drop_m", "drop_all", "no_lead", "dot_seg",
     "dotdot", "semicolon", "swap", "space_pct", "dup",
+    // name() vs identifier(): the Rust spellings of the service / method, package on / off
+    "rust_svc", "rust_method", "rust_both", "camel_svc", "snake_method", "camel_method", "drop_pkg", "add_pkg", "server_suffix", "mod_name",
 ];
 /// one mutation of the URI text (before parsing)
-fn mutate(r: &mut Rng, s: &str, svc: &str, m: &str, which: &str) -> String {
+fn mutate(r: &mut Rng, s: &str, svc: &str, m: &str, rust: &(String, String), which: &str) -> String {
     let chars: Vec<char> = s.chars().collect();
     let pos = |r: &mut Rng, incl_end: bool| -> usize {
         let n = chars.len() + incl_end as usize;
@@ -85,6 +87,16 @@ fn mutate(r: &mut Rng, s: &str, svc: &str, m: &str, which: &str) -> String {
         "swap" => format!("/{}/{}", m, svc),
         "space_pct" => format!("/{}%20/{}", svc, m),
         "dup" => format!("{}{}", s, s),
+        "rust_svc" => format!("/{}/{}", rust.0, m),
+        "rust_method" => format!("/{}/{}", svc, rust.1),
+        "rust_both" => format!("/{}/{}", rust.0, rust.1),
+        "camel_svc" => format!("/{}/{}", upper_camel(svc), m),
+        "snake_method" => format!("/{}/{}", svc, snake(m)),
+        "camel_method" => format!("/{}/{}", svc, upper_camel(m)),
+        "drop_pkg" => format!("/{}/{}", svc.rsplit('.').next().unwrap_or(svc), m),
+        "add_pkg" => format!("/{}.{}/{}", r.pick(&["pkg", "hidden.pkg", "grpc"]), svc, m),
+        "server_suffix" => format!("/{}{}/{}", svc, r.pick(&["Server", "Client", "_server"]), m),
+        "mod_name" => format!("/{}/{}", snake(svc), m),
         _ => s.to_string(),
     }
 }
@@ -106,13 +118,23 @@ fn gen_uri(r: &mut Rng, regs: &[Reg]) -> (String, String) {
         return (gen_random_path(r), "random".into());
     }
     // base (service, method): mostly a registered pair
-    let (svc, m): (String, String) = if !regs.is_empty() && r.chance(4, 5) {
+    let (svc, m, rust): (String, String, (String, String)) = if !regs.is_empty() && r.chance(4, 5) {
         let g = r.pick(regs);
         let ms = g.methods();
-        let m = if ms.is_empty() || r.chance(1, 8) { r.pick(METHODS).to_string() } else { r.pick(&ms).clone() };
-        (g.name().to_string(), m)
+        let (rs, rms) = g.rust_spellings();
+        if ms.is_empty() || r.chance(1, 8) {
+            let m = r.pick(METHODS).to_string();
+            let rm = snake(&m);
+            (g.name().to_string(), m, (rs, rm))
+        } else {
+            let j = r.below(ms.len() as u64) as usize;
+            (g.name().to_string(), ms[j].clone(), (rs, rms[j].clone()))
+        }
     } else {
-        (STUB_NAMES[r.below(N_MODEL as u64) as usize].to_string(), r.pick(METHODS).to_string())
+        let svc = STUB_NAMES[r.below(N_MODEL as u64) as usize].to_string();
+        let m = r.pick(METHODS).to_string();
+        let rust = (upper_camel(&svc), snake(&m));
+        (svc, m, rust)
     };
     let mut s = format!("/{}/{}", svc, m);
     let k = match r.below(10) {
@@ -122,8 +144,9 @@ fn gen_uri(r: &mut Rng, regs: &[Reg]) -> (String, String) {
     };
     let mut desc = vec![];
     for _ in 0..k {
-        let which = *r.pick(&MUTATIONS[1..]);
-        s = mutate(r, &s, &svc, &m, which);
+        // the name/identifier spellings get a third of the draws
+        let which = if r.chance(1, 3) { *r.pick(&MUTATIONS[32..]) } else { *r.pick(&MUTATIONS[1..]) };
+        s = mutate(r, &s, &svc, &m, &rust, which);
         desc.push(which);
     }
     if desc.is_empty() {
